@@ -70,8 +70,7 @@ Theorem C15_run_depends_only_on_archive :
 Proof. exact run_depends_only_on_archive. Qed.
 Print Assumptions C15_run_depends_only_on_archive.
 
-(* (5) Each quirk is a genuine defect (witness = the known finding's replay), and
-   the precondition is needed (KF-C15-04). *)
+(* (5) Each quirk is a genuine defect (witness = the known finding's replay). *)
 Theorem C15_q_unnamed_sentinel_refuted :
   exists L main, pre L main = true /\ ~ like_source only_sentinel 24 L main.
 Proof. exact q_unnamed_sentinel_refuted. Qed.
@@ -86,11 +85,6 @@ Theorem C15_q_cfg_goquote_refuted :
   exists L main, pre L main = true /\ ~ like_source only_cfg 24 L main.
 Proof. exact q_cfg_goquote_refuted. Qed.
 Print Assumptions C15_q_cfg_goquote_refuted.
-
-Theorem C15_pre_needed_dot_import :
-  exists L main, pre L main = false /\ ~ like_source quirks_off 24 L main.
-Proof. exact pre_needed_dot_import. Qed.
-Print Assumptions C15_pre_needed_dot_import.
 
 (* (6) Non-vacuity: a module layout (main in a sub-directory; ./, /-rooted with "..",
    nested and data imports) satisfies pre and the guard under all quirks on, and
